@@ -18,7 +18,14 @@ def _impl():
     return m
 
 
+def _is_as(kind, b):
+    """is_base58check on other bytes-like / sequence views of the same data: it must return a bool, never raise"""
+    x = {"memoryview": memoryview(b), "list": list(b), "tuple": tuple(b), "str": b.decode("latin-1")}[kind]
+    return _impl().is_base58check(x)
+
+
 IMPL = {
+    "is_base58check_as": _is_as,
     "base58encode": lambda b: _impl().base58encode(b),
     "base58decode": lambda s: _impl().base58decode(s),
     "base58check": lambda b: _impl().base58check(b),
@@ -99,6 +106,10 @@ def gen_cases(rng, tier):
     for _ in range(2000 if T else 200):
         L = rng.randrange(0, 60)
         strs.append(("rand-str", bytes(rng.choice(ALPHA) for _ in range(L))))
+    # the classifier on other views of the data (no .lstrip / not bytes): the pinned code answers False for all of them
+    for kind in ("memoryview", "list", "tuple", "str"):
+        for sv in (valid[:3] + validc[:6] + [b"", b"0", b"\xff\xfe", b"1111"]):
+            out.append(case("is-other-type-" + kind, "is_base58check_as", kind, sv, expect=("ok", False)))
     for cls, s in strs:
         out.append(case("dec-" + cls, "base58decode", s, strict=True))
         out.append(case("cdec-" + cls, "base58check_decode", s, strict=True))
@@ -107,6 +118,8 @@ def gen_cases(rng, tier):
 
 
 def shrink(c):
+    if c["op"] == "is_base58check_as":
+        return
     for b in shrink_bytes(c["args"][0]):
         c2 = dict(c)
         c2["args"] = [b]
@@ -116,6 +129,12 @@ def shrink(c):
 def prop_oracle(c):
     """the literal statement of C07 on the implementation, for the byte string of this case"""
     m = _impl()
+    if c["op"] == "is_base58check_as":
+        try:
+            r = _is_as(*c["args"])
+        except Exception as e:
+            return "is_base58check raised %s instead of returning a boolean" % type(e).__name__
+        return None if isinstance(r, bool) else "is_base58check returned a non-boolean"
     x = c["args"][0]
     op = c["op"]
     if op in ("base58encode", "base58check"):
@@ -164,6 +183,8 @@ def prop_oracle(c):
 
 
 def coq_equation(c, mr):
+    if c["op"] == "is_base58check_as":
+        return None
     """the same computation as a Coq term, for the vm_compute cross-check of the extraction"""
     a = coq_bytes(c["args"][0])
     op = c["op"]
@@ -179,3 +200,8 @@ def coq_equation(c, mr):
         return "c07_base58check_decode sha256 %s = %s" % (a, coq_result(mr))
     if op == "is_base58check":
         return "c07_is_base58check sha256 %s = %s" % (a, coq_lit(mr[1]))
+
+
+# ops whose answer must not depend on the concrete bytes-like type of their arguments (they agree on the pinned tree;
+# tools/bytearray_probe.py); common.py re-runs a sample of their cases with bytearray arguments
+BYTEARRAY_OPS = {'base58encode', 'base58check', 'is_base58check', 'base58decode', 'base58check_decode'}
